@@ -616,6 +616,11 @@ func (g *GoFakeS3) createObjectBrowserUpload(bucket string, w http.ResponseWrite
 		return ErrIncorrectNumberOfFilesInPostRequest
 	}
 	key := keyValues[0]
+	if key == "" {
+		// An object with the empty key could not be addressed by any other
+		// request (the router takes "/bucket/" for the bucket):
+		return ErrorInvalidArgument("key", key, "The object key must not be empty.")
+	}
 
 	g.log.Print(LogInfo, "(BUC)", bucket)
 	g.log.Print(LogInfo, "(KEY)", key)
@@ -889,6 +894,13 @@ func (g *GoFakeS3) deleteMulti(bucket string, w http.ResponseWriter, r *http.Req
 
 func (g *GoFakeS3) initiateMultipartUpload(bucket, object string, w http.ResponseWriter, r *http.Request) error {
 	g.log.Print(LogInfo, "initiate multipart upload", bucket, object)
+
+	if object == "" {
+		// "POST /bucket?uploads": completing such an upload would create an
+		// object with the empty key, which no request can read or delete and
+		// which keeps the bucket from ever being deleted.
+		return ErrorInvalidArgument("key", object, "The object key must not be empty.")
+	}
 
 	meta, err := metadataHeaders(r.Header, g.timeSource.Now(), g.metadataSizeLimit)
 	if err != nil {
